@@ -44,9 +44,15 @@ Print Assumptions C09_sig_roundtrip.
 
 (* ... and the same for HTTP signatures: version, required/optional headers with or without bracketed values
    (commas allowed inside the brackets), absent list, software *)
-Theorem C09_http_sig_roundtrip : forall h, printable_http h -> parse_http_sig (print_http_sig h) = Ok h.
+Theorem C09_http_sig_roundtrip : forall h, printable_http h -> parse_http_sig (print_http_sig h) = Ok (encode_http h).
 Proof. exact parse_print_http_sig. Qed.
 Print Assumptions C09_http_sig_roundtrip.
+Theorem C09_http_sig_roundtrip_ascii : forall h, printable_http h ->
+  Forall (fun x => ascii_text (sh_name x) /\ match sh_value x with Some v => ascii_text v | None => True end) (hs_headers h) ->
+  Forall ascii_text (hs_absent h) -> match hs_software h with Some s => ascii_text s | None => True end ->
+  parse_http_sig (print_http_sig h) = Ok h.
+Proof. exact parse_print_http_sig_ascii. Qed.
+Print Assumptions C09_http_sig_roundtrip_ascii.
 
 (* option layouts and quirk lists denote what their text says (printer/parser round trip) *)
 Theorem C09_layout_text : forall l pad,
